@@ -452,6 +452,38 @@ func C35(c *Ctx) {
 	}
 	const r4 = "K2.table-cut-at-key-boundary"
 	tableCutGroup(c, r4)
+	const r5 = "K2.block-switch-resets-decode-state"
+	c.Rule(r5, "blockIterator.setIdx decodes prefix-compressed keys incrementally: the fields it both reads and writes (state carried from the previous entry: idx, baseKey, key, prevOverlap) describe the previous block's entry; blockIterator.setBlock (directly or through a helper) re-initialises every one of them, so the first decode in a new block never reuses bytes of the old block")
+	if si := c.Fn("lsm", "blockIterator.setIdx"); si != nil {
+		if sb := c.Fn("lsm", "blockIterator.setBlock"); sb != nil {
+			loaded, stored := map[string]bool{}, map[string]bool{}
+			AllInstrs(si, false, func(in ssa.Instruction) {
+				switch x := in.(type) {
+				case *ssa.UnOp:
+					if x.Op == token.MUL {
+						if o, f, ok := FieldOf(x.X); ok && o == "lsm.blockIterator" {
+							loaded[f] = true
+						}
+					}
+				case *ssa.Store:
+					if o, f, ok := FieldOf(x.Addr); ok && o == "lsm.blockIterator" {
+						stored[f] = true
+					}
+				}
+			})
+			var carried []string
+			for f := range loaded {
+				if stored[f] {
+					carried = append(carried, f)
+				}
+			}
+			sort.Strings(carried)
+			c.Decide(len(carried) >= 3, r5, key(si, "carried-decode-state"), si.Pos(), len(carried)+1, "carried state: "+strings.Join(carried, ","), "setIdx no longer carries incremental decode state (expected at least baseKey, key, prevOverlap): rule out of date")
+			for _, f := range carried {
+				c.Decide(storesFieldDeep(c, sb, "lsm.blockIterator", f, 2), r5, key(sb, "resets:"+f), sb.Pos(), 1, "reset on block switch", "setBlock does not re-initialise blockIterator."+f+", which setIdx carries over from the previously decoded entry: the first entry decoded in the new block can be assembled from the previous block's bytes (seek lands on a wrong or invalid entry)")
+			}
+		}
+	}
 	const r3 = "K12.footer-widths-agree"
 	c.Rule(r3, "block footer layout agrees between builder and reader: entry-offsets count (4 bytes), checksum (8 bytes), checksum length (4 bytes)")
 	if fn := c.Fn("lsm", "table.loadBlock"); fn != nil {
